@@ -60,6 +60,7 @@ type jcase struct {
 	PPB    int        `json:"ppb"`
 	Files  []jfile    `json:"files,omitempty"`
 	Writes [][]jwrite `json:"cache_batches,omitempty"` // mode 2: WriteMulti batches
+	NRoll  int        `json:"roll_blocks,omitempty"`   // kind "roll": number of 1-point blocks of one key
 	// observed
 	In  [][]jgroup `json:"in_as_read,omitempty"`
 	Err string     `json:"impl_err,omitempty"`
@@ -344,9 +345,112 @@ func caseTerm(c *jcase) string {
 		c.Mode, c.PPB, vh.List(files), vh.List(cache), vh.Bool(c.Err != ""), vh.List(outs))
 }
 
+// runRoll exercises Compactor.write's rolling on ErrMaxBlocksExceeded on the real code:
+// c.NRoll one-point blocks of ONE key, split over two input files, compacted with
+// pointsPerBlock = 1 (every block is "full" and passed through), so the key has more than
+// maxIndexEntries (65535) blocks and the compactor must roll to a second file.  The case is too
+// big for the Coq judge (its term would have > 130000 points); it is checked here, on the
+// implementation side, against the statement of C04_roll_preserves / the content oracle:
+// files = a split of the block sequence into non-empty pieces of at most 65535 blocks of the
+// key, nothing lost, nothing duplicated, order kept.  A violation is reported with w.Fail.
+// The Coq term recorded for the case is the trivial empty snapshot.
+func runRoll(w *vh.W, c *jcase) {
+	caseNo++
+	dir := filepath.Join(tmpRoot, fmt.Sprintf("case%d", caseNo))
+	must(os.MkdirAll(dir, 0o755))
+	defer os.RemoveAll(dir)
+	fs := &fakeFS{gen: 100}
+	defer fs.Close()
+	comp := tsm1.NewCompactor()
+	comp.Dir = dir
+	comp.FileStore = fs
+	comp.Open()
+	defer comp.Close()
+	n := c.NRoll
+	half := n / 2
+	var paths []string
+	fail := ""
+	for fi := 0; fi < 2; fi++ {
+		path := filepath.Join(dir, tsm1.DefaultFormatFileName(fi+1, 1)+".tsm")
+		fd, err := os.Create(path)
+		must(err)
+		tw, err := tsm1.NewTSMWriter(fd)
+		must(err)
+		lo, hi := 0, half
+		if fi == 1 {
+			lo, hi = half, n
+		}
+		for t := lo; t < hi; t++ {
+			if err := tw.Write([]byte(keyPool[1]), []tsm1.Value{tsm1.NewValue(int64(t), int64(fi+1))}); err != nil {
+				fail = "writing roll input: " + err.Error()
+			}
+		}
+		must(tw.WriteIndex())
+		must(tw.Close())
+		paths = append(paths, path)
+	}
+	var outFiles []string
+	var err error
+	if p := vh.Guard(func() { outFiles, err = comp.CompactFast(paths, zap.NewNop(), 1) }); p != "" {
+		fail = "compaction panicked: " + p
+	}
+	if err != nil && fail == "" {
+		fail = "compaction returned an error: " + err.Error()
+	}
+	next := int64(0)
+	var perFile []int
+	for _, of := range outFiles {
+		ks, _, e := readFile(of, false)
+		if e != nil {
+			fail = "output file unreadable: " + e.Error()
+			break
+		}
+		cnt := 0
+		for _, k := range ks {
+			if k.Key != 1 && fail == "" {
+				fail = "unexpected key in rolled output"
+			}
+			for _, b := range k.Blocks {
+				cnt++
+				for _, p := range b.Pts {
+					want := int64(1)
+					if p[0] >= int64(half) {
+						want = 2
+					}
+					if (p[0] != next || p[1] != want) && fail == "" {
+						fail = fmt.Sprintf("rolled output: expected point (%d,%d), found (%d,%d)", next, want, p[0], p[1])
+					}
+					next++
+				}
+			}
+		}
+		perFile = append(perFile, cnt)
+		if (cnt == 0 || cnt > 65535) && fail == "" {
+			fail = fmt.Sprintf("rolled output file with %d blocks of one key", cnt)
+		}
+	}
+	if next != int64(n) && fail == "" {
+		fail = fmt.Sprintf("rolled output holds %d of %d points", next, n)
+	}
+	if n > 65535 && len(outFiles) < 2 && fail == "" {
+		fail = "more than 65535 blocks of one key in one output file (no roll)"
+	}
+	w.Extra["roll_blocks_per_output_file"] = perFile
+	c.Out = [][]okey{}
+	idx := w.Add("{| c_mode := 2%N; c_size := 1000%nat; c_files := []; c_cache := []; c_err := false; c_out := [] |}", c, true, "")
+	if fail != "" {
+		w.Fail(idx, fail, "")
+	}
+	w.Count("kind", c.Kind)
+}
+
 // The real blocks carry index min/max; the in-as-read groups store them implicitly (first/last
 // point) only if they agree — readInputs checks that and reports otherwise.
 func run(w *vh.W, c *jcase) {
+	if c.Kind == "roll" {
+		runRoll(w, c)
+		return
+	}
 	caseNo++
 	dir := filepath.Join(tmpRoot, fmt.Sprintf("case%d", caseNo))
 	must(os.MkdirAll(dir, 0o755))
@@ -639,6 +743,38 @@ func (g *gen) dels(nkeys int, dom int64) []jdel {
 
 var ppbs = []int{1, 2, 2, 3, 3, 4, 5, 5}
 
+// in-file blocks of a key out of time order and overlapping (the TSM writer accepts them; a
+// file store would never produce them if compaction keeps its own outputs ordered, which is
+// what C04_compact_blocks_ordered says): the iterator must still sort, dedup and merge them
+func (g *gen) shuffled() *jcase {
+	c := &jcase{Kind: "shuffled", Mode: g.n(2), PPB: ppbs[g.n(len(ppbs))]}
+	nfiles := 1 + g.n(3)
+	nkeys := 1 + g.n(2)
+	dom := int64(6 + g.n(14))
+	c.Files = make([]jfile, nfiles)
+	for i := range c.Files {
+		for k := 0; k < nkeys; k++ {
+			nb := g.n(5)
+			var bl [][]pt
+			for j := 0; j < nb; j++ {
+				ts := g.times(1+g.n(c.PPB+2), int64(g.n(int(dom))), 2+int64(g.n(int(dom))))
+				b := make([]pt, len(ts))
+				for x, t := range ts {
+					b[x] = pt{t, normV(k, int64(10*(i+1)+j))}
+				}
+				bl = append(bl, b)
+			}
+			if len(bl) > 0 {
+				c.Files[i].Groups = append(c.Files[i].Groups, jgroup{Key: k, Blocks: bl})
+			}
+		}
+		if g.n(3) == 0 {
+			c.Files[i].Dels = g.dels(nkeys, dom)
+		}
+	}
+	return c
+}
+
 // random compaction case
 func (g *gen) compaction() *jcase {
 	c := &jcase{Mode: g.n(2), PPB: ppbs[g.n(len(ppbs))]}
@@ -849,13 +985,15 @@ func corpus() []*jcase {
 		{Kind: "corpus", Mode: 2, PPB: 1000, Writes: [][]jwrite{
 			{{Key: 0, Pts: []pt{{5, 1}, {1, 2}, {5, 3}}}, {Key: 1, Pts: []pt{{2, 1}}}},
 			{{Key: 0, Pts: []pt{{1, 4}, {0, 5}}}}}},
+		// rolling on ErrMaxBlocksExceeded (checked on the implementation side, see runRoll)
+		{Kind: "roll", Mode: 1, PPB: 1, NRoll: 66000},
 	}
 }
 
 func main() {
 	bigPerMille := flag.Int("big", 12, "per-mille of 1000-point cases")
 	w := vh.New("C04", "From Verif Require Import Base.Prelude Model.C37 Model.C04.\nLocal Open Scope Z_scope.", "case", "check")
-	w.Rule = "kinds: corpus (hand-picked), disjoint (all blocks of a key time-ordered and disjoint, dealt over 1-4 files: pass-through / fast / decode-rest paths), disjoint+del, overlap (1-4 files x 1-4 keys, per file and key 0-3*ppb+3 points from a sliding window of a 8-37 timestamp domain cut into blocks of length {1,2,ppb/2,ppb-1,ppb,ppb+1,2ppb}; value = file number so that newest-wins is visible), overlap+del (0-2 DeleteRange per file over random key subsets, ranges incl. MinInt64/MaxInt64/full/point), big (ppb 1000, 1000/999/1001/1500/2000-point inputs, disjoint or interleaved), optimize (CompactFull with ppb 1200 over 1000-point blocks), snapshot (1-4 WriteMulti batches x 1-4 keys, unsorted duplicates over 14 timestamps; Snapshot+Deduplicate+WriteSnapshot), snapshot-big (999..2001 points in one key). ppb in {1,2,3,4,5,1000,1200}; CompactFull and CompactFast alternate. At most 20 blocks per key (Go's sort.Stable is insertion sort up to 20). Non-trivial: a compaction where a key occurs in >= 2 input files or has a tombstone range; a snapshot with out-of-order/duplicate timestamps or more than one output block. Distinct: distinct Gallina terms."
+	w.Rule = "kinds: corpus (hand-picked), roll (66000 one-point blocks of one key, CompactFast with ppb 1: rolling to a second file at 65535 blocks, asserted on the implementation side only), shuffled (blocks of a key out of order and overlapping INSIDE a file), disjoint (all blocks of a key time-ordered and disjoint, dealt over 1-4 files: pass-through / fast / decode-rest paths), disjoint+del, overlap (1-4 files x 1-4 keys, per file and key 0-3*ppb+3 points from a sliding window of a 8-37 timestamp domain cut into blocks of length {1,2,ppb/2,ppb-1,ppb,ppb+1,2ppb}; value = file number so that newest-wins is visible), overlap+del (0-2 DeleteRange per file over random key subsets, ranges incl. MinInt64/MaxInt64/full/point), big (ppb 1000, 1000/999/1001/1500/2000-point inputs, disjoint or interleaved), optimize (CompactFull with ppb 1200 over 1000-point blocks), snapshot (1-4 WriteMulti batches x 1-4 keys, unsorted duplicates over 14 timestamps; Snapshot+Deduplicate+WriteSnapshot), snapshot-big (999..2001 points in one key). ppb in {1,2,3,4,5,1000,1200}; CompactFull and CompactFast alternate. At most 20 blocks per key (Go's sort.Stable is insertion sort up to 20). Non-trivial: a compaction where a key occurs in >= 2 input files or has a tombstone range; a snapshot with out-of-order/duplicate timestamps or more than one output block. Distinct: distinct Gallina terms."
 	base := ""
 	if st, e := os.Stat("/dev/shm"); e == nil && st.IsDir() {
 		base = "/dev/shm"
@@ -887,6 +1025,8 @@ func main() {
 			c = g.big()
 		case r < 120:
 			c = g.snapshot()
+		case r < 200:
+			c = g.shuffled()
 		default:
 			c = g.compaction()
 		}
